@@ -2,7 +2,7 @@
      merge_equations     the cross-equation merge neither loses nor invents an equation: the equations of the merged symbol
                          list are, as a set, the equations of the per-statement symbol lists
      script_graph_edges  for a script that the splitter cuts into the statements denorm_text lay q_1 … denorm_text lay q_n
-                         (each q_i under dq_ok / neq_wf, its assigned name not used as a function) and that parse_model
+                         (each q_i under dq_ok / neq_wf) and that parse_model
                          accepts: symbols_to_graph builds a graph whose edges are exactly
                          { x -> n | some q_i has n among its left-hand ids and x among its right-hand ids }. *)
 From Coq Require Import String Ascii List Bool Arith Lia ZArith Permutation.
@@ -185,9 +185,7 @@ Proof.
   all: try (match type of Hgo with
             | match dict_combine _ ?sym _ with _ => _ end = _ => apply (COMB sym eq_refl Hgo)
             end).
-  - destruct (mem_string (tname t) fs); [apply (IH _ _ _ Hd Hgo)|].
-    refine (IH _ _ _ _ Hgo). intros k s Hin. destruct (In_set _ _ _ _ _ Hin) as [[_ ->]|Hin']; [discriminate|apply (Hd k s Hin')].
-  - apply (IH _ _ _ Hd Hgo).
+  apply (IH _ _ _ Hd Hgo).
 Qed.
 Lemma equation_symbols_named eqn code terms syms : equation_symbols eqn code terms = Ret syms -> forall s, In s syms -> sname s <> None.
 Proof.
@@ -198,12 +196,12 @@ Qed.
 
 (* what the parse of one de-normalised statement looks like *)
 Definition stmt_ok_q (lay : layout) (q : neq) : Prop :=
-  exists y ky ws r, q = mkNeq (NTerm y (IInt ky) :: ws) r /\ dq_ok lay q = true /\ neq_wf q = true /\ no_function_named y r = true.
+  exists y ky ws r, q = mkNeq (NTerm y (IInt ky) :: ws) r /\ dq_ok lay q = true /\ neq_wf q = true.
 
 Lemma reparsed_symbols lay q syms : stmt_ok_q lay q -> parse_equation_M (denorm_text lay q) = POk syms ->
   equations_of syms = [neq_text q] /\ forall s, In s syms -> tidy s /\ sname s <> None.
 Proof.
-  intros (y & ky & ws & r & -> & Hq & Hw & Hf) Hp. split; [apply (reparsed_equations lay y ky ws r syms Hq Hf Hp)|].
+  intros (y & ky & ws & r & -> & Hq & Hw) Hp. split; [apply (reparsed_equations lay y ky ws r syms Hq Hp)|].
   pose proof Hp as Hp0. rewrite (normal_form_fixed_point lay _ Hq) in Hp.
   set (q := mkNeq (NTerm y (IInt ky) :: ws) r) in *.
   destruct (equation_symbols (neq_text q) (neq_code q) (lneq_terms lay q)) as [l|] eqn:E; [|discriminate]. inversion Hp; subst l.
@@ -214,7 +212,7 @@ Proof.
     destruct x; try discriminate. cbn [lay_terms lay_term tok_term]. apply IH, Hl. }
   assert (G : lhs_guard y (lneq_terms lay q) = true).
   { unfold lneq_terms, q. cbn [nlhs nrhs lay_terms lay_term]. rewrite Hws0, Hst. unfold lhs_guard. cbn [app forallb ttype tname style_type].
-    rewrite String.eqb_refl. apply (lhs_guard_terms lay y r Hf). }
+    rewrite String.eqb_refl. apply (lhs_guard_terms lay y r). }
   assert (HE : has_type TEndogenous (lneq_terms lay q) = true).
   { unfold lneq_terms, q. cbn [nlhs nrhs lay_terms lay_term]. rewrite Hst. reflexivity. }
   destruct (equation_symbols_one _ _ y _ _ G HE E) as [_ Htidy].
@@ -256,7 +254,7 @@ Proof.
   destruct (equations_of_concat_parts lay qs by_eq Hq (map_p_ok _ _ _ Em)) as [Ec Tc].
   pose proof (merge_equations by_eq syms Tc Eg) as M.
   assert (Wq : forall q, In q qs -> neq_wf q = true).
-  { intros q Hin. rewrite Forall_forall in Hq. destruct (Hq q Hin) as (? & ? & ? & ? & _ & _ & W & _). exact W. }
+  { intros q Hin. rewrite Forall_forall in Hq. destruct (Hq q Hin) as (? & ? & ? & ? & _ & _ & W). exact W. }
   (* one token list of qs for every equation of the merged symbols *)
   set (pick := fun e => find (fun q => String.eqb (neq_text q) e) qs).
   assert (PK : forall e, In e (equations_of syms) -> exists q, pick e = Some q /\ In q qs /\ neq_text q = e).
